@@ -219,4 +219,213 @@ Proof.
   exact (Hl _ _ _ H).
 Qed.
 
+(* every parent link after a late failure: the moved element points to the destination, all others are unchanged *)
+Definition reparented (w w' : world) (self mv : id) : Prop :=
+  forall i, parent_link w' i = if i =? mv then Some (PElem self) else parent_link w i.
+
+Lemma parent_link_unlinked w src_parent pn k i :
+  w_nodes w src_parent = Some pn -> parent_link (unlinked w src_parent pn k) i = parent_link w i.
+Proof.
+  intros Hpn. unfold parent_link, unlinked. cbn [w_nodes]. unfold upd. destruct (i =? src_parent) eqn:E; [|reflexivity].
+  apply N.eqb_eq in E. subst i. rewrite Hpn. reflexivity.
+Qed.
+
+Lemma move_local_parents self mv pos m version w e w' :
+  move_element_local T check_fn self mv pos m version w = Val (ER e, w') ->
+  w' = w \/ (late_err e /\ reparented w w' self mv).
+Proof.
+  intros H. unfold move_element_local in H.
+  wl1 H. winvs. wl1 H. winvs. wl1 H.
+  match type of H with (if ?b then _ else _) _ = _ => destruct b end; [winvs; left; reflexivity|].
+  wl1 H. winvs. wl1 H.
+  match type of H with (match ?x with _ => _ end) _ = _ => destruct x as [src_parent|] end; [|winvs; left; reflexivity].
+  wl1 H. wl1 H. wl1 H.
+  match type of H with (if ?b then _ else _) _ = _ => destruct b end; [winvs; left; reflexivity|].
+  wl1 H. wl1 H.
+  wer H. 2:{ left. eapply nf_detach_from; eauto. }
+  match goal with E : detach_from _ _ _ = Val _ |- _ => rename E into Edet end.
+  unfold detach_from in Edet. wok Edet. winvs.
+  match goal with Hx : w_nodes w src_parent = Some ?x |- _ => rename x into pn; rename Hx into Hpn end.
+  destruct (index_of (citem_is mv) (n_content pn)) as [k|] eqn:Eidx; [|discriminate Edet].
+  apply set_node_inv in Edet as (_ & ->). fold (unlinked w src_parent pn k) in H.
+  wer H; [|exfalso; noer].
+  match goal with E : modify_node _ _ _ = Val _ |- _ => apply modify_node_inv in E as (n1 & Hn1 & _ & ->) end.
+  right.
+  match type of H with ?tail ?w2 = _ => assert (Hl : late tail) end.
+  { clear. late_tac. all: try late_loop. all: try late_loop. }
+  destruct (Hl _ _ _ H) as (S & He). split; [apply He; reflexivity|].
+  intros i. rewrite (proj2 S i). unfold parent_link at 1. cbn [w_nodes]. unfold upd at 1.
+  destruct (i =? mv) eqn:Ei; [reflexivity|]. fold (parent_link (unlinked w src_parent pn k) i).
+  apply parent_link_unlinked. exact Hpn.
+Qed.
+
+Lemma move_full_parents self mv pos m m_src version w e w' :
+  move_element_full T tab_en check_fn self mv pos m m_src version w = Val (ER e, w') ->
+  w' = w \/ (late_err e /\ reparented w w' self mv).
+Proof.
+  intros H. unfold move_element_full in H.
+  wl1 H. winvs. wl1 H. winvs. wl1 H. wl1 H. wl1 H.
+  match type of H with (match ?x with _ => _ end) _ = _ => destruct x as [src_parent|] end; [|winvs; left; reflexivity].
+  wl1 H. winvs. wl1 H. wl1 H. wl1 H.
+  wer H. 2:{ left. eapply nf_detach_from; eauto. }
+  match goal with E : detach_from _ _ _ = Val _ |- _ => rename E into Edet end.
+  unfold detach_from in Edet. wok Edet. winvs.
+  match goal with Hx : w_nodes w src_parent = Some ?x |- _ => rename x into pn; rename Hx into Hpn end.
+  destruct (index_of (citem_is mv) (n_content pn)) as [k|] eqn:Eidx; [|discriminate Edet].
+  apply set_node_inv in Edet as (_ & ->). fold (unlinked w src_parent pn k) in H.
+  (* the two clean-up loops of the source model keep every node *)
+  wer H.
+  2:{ exfalso. match goal with E : _ = Val (ER _, _) |- _ => revert E end. clear.
+      match goal with |- ?loop ?l ?w = _ -> _ => intros E; refine ((_ : nofail (loop l)) w _ _ E) end.
+      clear. match goal with |- nofail (_ ?l) => induction l as [|[? ?] ? IHl]; nofail_tac; auto end. }
+  match goal with E : ?loop ?l (unlinked w src_parent pn k) = Val (OK _, ?wa) |- _ =>
+    assert (Sa : sp (unlinked w src_parent pn k) wa);
+    [refine ((_ : keeps (loop l)) _ _ _ E); clear;
+     match goal with |- keeps (_ ?l) => induction l as [|[? ?] ? IHl];
+       [apply keeps_ro; ro_tac|apply keeps_bind; [apply keeps_remove_identifiable|intros ?; exact IHl]] end|] end.
+  wer H.
+  2:{ exfalso. match goal with E : _ = Val (ER _, _) |- _ => revert E end. clear.
+      match goal with |- ?loop ?l ?w = _ -> _ => intros E; refine ((_ : nofail (loop l)) w _ _ E) end.
+      clear. match goal with |- nofail (_ ?l) => induction l as [|[? ?] ? IHl]; nofail_tac; auto end. }
+  match goal with E : ?loop ?l ?wa = Val (OK _, ?wb), Sx : sp _ ?wa |- _ =>
+    assert (Sb : sp wa wb);
+    [refine ((_ : keeps (loop l)) _ _ _ E); clear;
+     match goal with |- keeps (_ ?l) => induction l as [|[? ?] ? IHl];
+       [apply keeps_ro; ro_tac|apply keeps_bind; [apply keeps_remove_reference_origin|intros ?; exact IHl]] end|] end.
+  wer H; [|exfalso; noer].
+  match goal with E : modify_node _ _ _ = Val _ |- _ => apply modify_node_inv in E as (n1 & Hn1 & _ & ->) end.
+  right.
+  match type of H with ?tail ?w2 = _ => assert (Hl : late tail) end.
+  { clear. late_tac.
+    all: try match goal with |- late (_ ?l) => induction l as [|[? ?] ? IHl]; late_tac; auto end. }
+  destruct (Hl _ _ _ H) as (S & He). split; [apply He; reflexivity|].
+  intros i. rewrite (proj2 S i). unfold parent_link at 1. cbn [w_nodes]. unfold upd at 1.
+  destruct (i =? mv) eqn:Ei; [reflexivity|].
+  match goal with |- option_map n_parent (w_nodes ?wb i) = _ => change (parent_link wb i = parent_link w i) end.
+  rewrite (proj2 Sb i), (proj2 Sa i). apply parent_link_unlinked. exact Hpn.
+Qed.
+
+(* ---------- the public calls ---------- *)
+Lemma e_move_here_reduce h mv w e w' :
+  e_move_element_here T tab_en check_fn LATEST h mv w = Val (ER e, w') ->
+  w' = w \/ (exists pos m version, move_element_local T check_fn h mv pos m version w = Val (ER e, w')) \/
+  (exists pos m m_src version, move_element_full T tab_en check_fn h mv pos m m_src version w = Val (ER e, w')).
+Proof.
+  intros H. unfold e_move_element_here in H.
+  destruct (h =? mv); [winvs; left; reflexivity|].
+  wl1 H. wl1 H. wl1 H. wl1 H.
+  match type of H with (if ?b then _ else _) _ = _ => destruct b end; [winvs; left; reflexivity|].
+  wl1 H. winvs. wl1 H. winvs. wl1 H.
+  match type of H with (match ?x with _ => _ end) _ = _ => destruct x as (rs, re) end.
+  match type of H with (if ?b then _ else _) _ = _ => destruct b end.
+  - wl1 H. match type of H with (match ?x with _ => _ end) _ = _ => destruct x as [p|] end; [|winvs; left; reflexivity].
+    destruct (p =? h); [winvs|]. right. left. eauto.
+  - right. right. eauto.
+Qed.
+
+Lemma e_move_here_at_reduce h mv pos w e w' :
+  e_move_element_here_at T tab_en check_fn LATEST h mv pos w = Val (ER e, w') ->
+  w' = w \/ (exists pos m version, move_element_local T check_fn h mv pos m version w = Val (ER e, w')) \/
+  (exists pos m m_src version, move_element_full T tab_en check_fn h mv pos m m_src version w = Val (ER e, w')).
+Proof.
+  intros H. unfold e_move_element_here_at in H.
+  destruct (h =? mv); [winvs; left; reflexivity|].
+  wl1 H. wl1 H. wl1 H. wl1 H.
+  match type of H with (if ?b then _ else _) _ = _ => destruct b end; [winvs; left; reflexivity|].
+  wl1 H. winvs. wl1 H. winvs. wl1 H.
+  match type of H with (match ?x with _ => _ end) _ = _ => destruct x as (rs, re) end.
+  match type of H with (if ?b then _ else _) _ = _ => destruct b end; [|winvs; left; reflexivity].
+  match type of H with (if ?b then _ else _) _ = _ => destruct b end.
+  - wl1 H. match type of H with (match ?x with _ => _ end) _ = _ => destruct x as [p|] end; [|winvs; left; reflexivity].
+    destruct (p =? h).
+    + left. revert H. apply nf_move_element_position.
+    + right. left. eauto.
+  - right. right. eauto.
+Qed.
+
+Lemma in_remove_at {A} (x : A) l k : In x (remove_at l k) -> In x l.
+Proof.
+  revert k. induction l as [|y l IH]; intros [|k] H; cbn in *; auto. destruct H as [->|H]; [left; reflexivity|right; eauto].
+Qed.
+
+Lemma removed_not_in mv l k :
+  index_of (citem_is mv) l = Some k -> NoDup (elems l) -> ~ In (CElem mv) (remove_at l k).
+Proof.
+  revert k. induction l as [|y l IH]; intros k Hk Hnd; cbn [index_of] in Hk; [discriminate Hk|].
+  destruct (citem_is mv y) eqn:Ey.
+  - injection Hk as <-. cbn [remove_at]. destruct y as [c|d]; cbn in Ey; [|discriminate Ey]. apply N.eqb_eq in Ey. subst c.
+    cbn in Hnd. inversion Hnd as [|? ? Hni _]; subst. intros Hin. apply Hni.
+    unfold elems. apply in_flat_map. exists (CElem mv). split; [exact Hin|left; reflexivity].
+  - destruct (index_of (citem_is mv) l) as [k'|] eqn:Ek; [|discriminate Hk]. injection Hk as <-. cbn [remove_at].
+    intros [Q|Hin].
+    + subst y. cbn in Ey. rewrite N.eqb_refl in Ey. discriminate Ey.
+    + eapply IH; eauto. destruct y as [c|d]; cbn in Hnd; [inversion Hnd; assumption|exact Hnd].
+Qed.
+
+(* THE RESIDUE of a move that failed late *)
+Definition move_residue (w w' : world) (h mv : id) (e : err) : Prop :=
+  (e = ElementNotIdentifiable \/ e = IncorrectContentType) /\
+  exists src_parent,
+    parent_link w mv = Some (PElem src_parent) /\
+    (* parent links: the moved element points to the destination, nothing else moved *)
+    (forall i, parent_link w' i = if i =? mv then Some (PElem h) else parent_link w i) /\
+    w_next w' = w_next w /\ w_files w' = w_files w /\
+    (* content lists: nobody gained a child, and NOBODY lists the moved element any more *)
+    (forall p n' c, w_nodes w' p = Some n' -> In (CElem c) (n_content n') ->
+                    exists n, w_nodes w p = Some n /\ In (CElem c) (n_content n)) /\
+    (forall p n', w_nodes w' p = Some n' -> ~ In (CElem mv) (n_content n')).
+
+Lemma residue_assemble w w' h mv e mn src_parent pn k :
+  Core w -> late_err e -> reparented w w' h mv ->
+  w_nodes w mv = Some mn -> n_parent mn = PElem src_parent -> w_nodes w src_parent = Some pn ->
+  index_of (citem_is mv) (n_content pn) = Some k -> nnc (unlinked w src_parent pn k) w' ->
+  move_residue w w' h mv e.
+Proof.
+  intros HC He Hrp Hmn Hpar Hpn Hk (N1 & N2 & N3). split; [exact He|]. exists src_parent.
+  split; [unfold parent_link; rewrite Hmn; cbn; congruence|]. split; [exact Hrp|].
+  split; [exact N1|]. split; [exact N2|].
+  assert (Hold : forall p n' c, w_nodes w' p = Some n' -> In (CElem c) (n_content n') ->
+            exists n, w_nodes (unlinked w src_parent pn k) p = Some n /\ In (CElem c) (n_content n)) by exact N3.
+  split.
+  - intros p n' c H1 H2. destruct (Hold p n' c H1 H2) as (n & Hn & Hin). unfold unlinked in Hn. cbn [w_nodes] in Hn.
+    unfold upd in Hn. destruct (p =? src_parent) eqn:Ep.
+    + apply N.eqb_eq in Ep. subst p. injection Hn as <-. cbn [set_content n_content] in Hin.
+      exists pn. split; [exact Hpn|]. eapply in_remove_at; eauto.
+    + eauto.
+  - intros p n' H1 H2. destruct (Hold p n' mv H1 H2) as (n & Hn & Hin). unfold unlinked in Hn. cbn [w_nodes] in Hn.
+    unfold upd in Hn. destruct (p =? src_parent) eqn:Ep.
+    + injection Hn as <-. cbn [set_content n_content] in Hin.
+      eapply removed_not_in; eauto. exact (c_nodup w HC src_parent pn Hpn).
+    + apply N.eqb_neq in Ep. apply Ep.
+      destruct (c_up w HC p mv) as (mn' & Hmn' & Hp').
+      * exists n. split; [exact Hn|]. apply in_elems11. exact Hin.
+      * congruence.
+Qed.
+
+Theorem move_here_residue h mv w e w' :
+  Core w -> e_move_element_here T tab_en check_fn LATEST h mv w = Val (ER e, w') ->
+  w' = w \/ move_residue w w' h mv e.
+Proof.
+  intros HC H. destruct (e_move_here_reduce _ _ _ _ _ H) as [->|[(pos & m & v & Hl)|(pos & m & ms & v & Hf)]]; [left; reflexivity| |].
+  - destruct (move_local_parents _ _ _ _ _ _ _ _ Hl) as [->|(He & Hrp)]; [left; reflexivity|].
+    destruct (move_local_residue _ _ _ _ _ _ _ _ Hl) as [->|(mn & sp0 & pn & k & A1 & A2 & A3 & A4 & A5)]; [left; reflexivity|].
+    right. eapply residue_assemble; eauto.
+  - destruct (move_full_parents _ _ _ _ _ _ _ _ _ Hf) as [->|(He & Hrp)]; [left; reflexivity|].
+    destruct (move_full_residue _ _ _ _ _ _ _ _ _ Hf) as [->|(mn & sp0 & pn & k & A1 & A2 & A3 & A4 & A5)]; [left; reflexivity|].
+    right. eapply residue_assemble; eauto.
+Qed.
+
+Theorem move_here_at_residue h mv pos w e w' :
+  Core w -> e_move_element_here_at T tab_en check_fn LATEST h mv pos w = Val (ER e, w') ->
+  w' = w \/ move_residue w w' h mv e.
+Proof.
+  intros HC H. destruct (e_move_here_at_reduce _ _ _ _ _ _ H) as [->|[(pos' & m & v & Hl)|(pos' & m & ms & v & Hf)]]; [left; reflexivity| |].
+  - destruct (move_local_parents _ _ _ _ _ _ _ _ Hl) as [->|(He & Hrp)]; [left; reflexivity|].
+    destruct (move_local_residue _ _ _ _ _ _ _ _ Hl) as [->|(mn & sp0 & pn & k & A1 & A2 & A3 & A4 & A5)]; [left; reflexivity|].
+    right. eapply residue_assemble; eauto.
+  - destruct (move_full_parents _ _ _ _ _ _ _ _ _ Hf) as [->|(He & Hrp)]; [left; reflexivity|].
+    destruct (move_full_residue _ _ _ _ _ _ _ _ _ Hf) as [->|(mn & sp0 & pn & k & A1 & A2 & A3 & A4 & A5)]; [left; reflexivity|].
+    right. eapply residue_assemble; eauto.
+Qed.
+
 End MoveResidue.
